@@ -16,7 +16,7 @@ MOD = "mc.props.c05"
 
 
 def configs(tier, seed):
-    return zoo.system_configs(seed, tier)
+    return zoo.system_configs(seed, tier, derived_metrics=True)
 
 
 def check_config(cfg, acc):
